@@ -588,6 +588,68 @@ func addC11Case(run *Run, o OptSet, a, b *Val) {
 
 // ---------------------------------------------------------------------------------------------
 // C12 — RFC 7386 input is applied as the RFC specifies
+// addC12ChainCase: merge patches read and applied in a CHAIN on the same Go values inside one process
+// (the document a Patch returned is patched again below an object that came out of the merge-patch
+// reader), then on fresh documents, then the no-op patch {}: state shared between calls shows only here.
+func addC12ChainCase(run *Run, r *Rng, cfg GenCfg) {
+	key := cfg.Keys[r.Intn(len(cfg.Keys))]
+	inner := cfg.Keys[r.Intn(len(cfg.Keys))]
+	a0 := cfg.Obj(r, 1)
+	a0.O[key] = VNum(1)
+	b1 := a0.Clone()
+	b1.O[key] = VObj()
+	b2 := b1.Clone()
+	b2.O[key] = VObj(inner, VNum(float64(1+r.Intn(3))))
+	a3 := VObj(key, VNum(2))
+	b3 := VObj(key, VObj())
+	steps := [][2]string{{"", b1.Wire()}, {"", b2.Wire()}, {a3.Wire(), b3.Wire()}, {VObj("q", VArr(VNum(1))).Wire(), VObj("q", VObj()).Wire()}}
+	c := Case{Recipe: Recipe{"c12chain", []string{}}, Desc: map[string]string{"a0": a0.Human(), "b1": b1.Human(), "b2": b2.Human()}}
+	c.Nontrivial = true
+	c.Sig = "chain|" + a0.Wire() + b2.Wire()
+	verdict, _ := safely(func() string {
+		cur := mustNode(a0.Wire())
+		for i, st := range steps {
+			if st[0] != "" {
+				cur = mustNode(st[0])
+			}
+			b := mustNode(st[1])
+			d := cur.Diff(b, jd.MERGE)
+			txt, err := d.RenderMerge()
+			if err != nil {
+				return fmt.Sprintf("fail step %d: RenderMerge: %v", i+1, err)
+			}
+			d2, err := jd.ReadMergeString(txt)
+			if err != nil {
+				return fmt.Sprintf("fail step %d: ReadMergeString(%s): %v", i+1, txt, err)
+			}
+			res, err := cur.Patch(d2)
+			if err != nil {
+				return fmt.Sprintf("fail step %d: Patch: %v", i+1, err)
+			}
+			if !res.Equals(b, jd.MERGE) {
+				return fmt.Sprintf("fail step %d: merge patch %s read and applied gives %s, not %s", i+1, txt, res.Json(), b.Json())
+			}
+			cur = res
+		}
+		q := mustNode(VObj("q", VBool(true)).Wire())
+		d0, err := jd.ReadMergeString("{}")
+		if err != nil {
+			return "fail ReadMergeString({}): " + err.Error()
+		}
+		res, err := q.Patch(d0)
+		if err != nil || !res.Equals(q) {
+			return "fail the no-op merge patch {} changed the document to " + res.Json()
+		}
+		return "ok"
+	})
+	if verdict == "panic" {
+		verdict = "fail panic in a chained merge round trip"
+	}
+	c.Probes = append(c.Probes, Probe{Kind: "direct", Rel: "C12 merge patches read and applied in a chain on the same values in one process", Want: verdict})
+	run.Count("chain")
+	run.Add(c)
+}
+
 func propC12(run *Run, n int) {
 	run.rule = "random targets x random merge patch documents (objects nested with nulls, empty objects at any depth over objects/scalars/absent keys, arrays, scalars, null at the root); non-trivial = the patch is not the empty object; distinct = distinct (target, patch)"
 	r := NewRng(run.Seed)
@@ -618,6 +680,9 @@ func propC12(run *Run, n int) {
 			continue
 		}
 		addC12Case(run, t, p)
+		if r.Chance(1, 40) {
+			addC12ChainCase(run, r, cfg)
+		}
 	}
 }
 
@@ -717,4 +782,5 @@ func init() {
 	recipes["c10"] = func(run *Run, a []string) { addC10Case(run, a[0], a[1], mustVal(a[2]), mustVal(a[3]), mustVal(a[4])) }
 	recipes["c11"] = func(run *Run, a []string) { addC11Case(run, mustOpts(a[0]), mustVal(a[1]), mustVal(a[2])) }
 	recipes["c12"] = func(run *Run, a []string) { addC12Case(run, mustVal(a[0]), mustVal(a[1])) }
+	recipes["c12chain"] = func(run *Run, a []string) { addC12ChainCase(run, NewRng(run.Seed), DefaultCfg()) }
 }
